@@ -250,6 +250,182 @@ def rule_G3b(prog, fixture=False):
     return res
 
 
+def rule_G3c(prog, fixture=False):
+    res = RuleResult("G3c", "every normal return of a slice assignment operator lies behind a copy into the slice (a copy primitive, an "
+                            "element write, a delegation to another assignment) - or is reached only when there is nothing to copy: the "
+                            "slice is empty, or source and destination are the same elements (same storage, same start, same step)")
+    methods = sorted([f for f in prog.functions.values() if f.cls and SLICE_CLASS.match(f.cls) and f.kind == "method" and not f.get("implicit")
+                      and _short(f.qn) == "operator=" and f.body() is not None], key=lambda f: (f.cls, f.line))
+    if not methods and not fixture:
+        res.broken.append("anchor vanished: no slice_t<T>::operator= found")
+        return res
+    n = 0
+    def copy_effects(g, depth=0):
+        gctx = GuardCtx(prog, g, group_params=False)
+        out = []
+        for x in g.walk():
+            if x.is_call() and x.callee and x.callee.get("qn", "") in (ANY_COPY | {"std::fill", "std::fill_n", "std::generate", "std::transform"}):
+                if any(any(r[0] == "this" for r in gctx.flow.root(a)) or _mentions_this(a, 0) for a in x.call_args()):
+                    out.append(x)
+            elif x.k == "CXXMemberCallExpr" and x.callee and x.callee.get("cls") == g.cls and depth < 2 and not x.callee.get("const"):
+                o = x.call_object()
+                if o is None or o.strip_all().k == "CXXThisExpr":
+                    h = prog.functions.get(x.callee.get("usr"))
+                    if h is not None and h.usr != g.usr and _short(h.qn) != "operator=" and copy_effects(h, depth + 1):
+                        out.append(x)     # a private helper that does the copying
+        return out + _element_writes(g, gctx)
+
+    for f in methods:
+        ctx = GuardCtx(prog, f, group_params=False)
+        f.blocks
+        effects = copy_effects(f)
+        eff_pos = {}
+        for e in effects:
+            loc = f.block_of(e)
+            if loc:
+                eff_pos.setdefault(loc[0], []).append(loc[1])
+            # a copy written as a loop: passing the loop is passing the copy (how often it runs is the count's business)
+            for a in e.ancestors():
+                if a.k in ("ForStmt", "WhileStmt", "DoStmt", "CXXForRangeStmt"):
+                    c = a.role("cond")
+                    cl = f.block_of(c) if c is not None else None
+                    if cl:
+                        eff_pos.setdefault(cl[0], []).append(cl[1])
+        src = [("parm", q["n"]) for q in f.params if "slice_t<" in q.get("t", "")]
+        rets = [r for r in f.walk() if r.k == "ReturnStmt" and not any(a.k == "LambdaExpr" for a in r.ancestors())]
+        for ri, r in enumerate(rets):
+            rl = f.block_of(r)
+            if rl is None:
+                continue
+            n += 1
+            key = "G3c:%s:return%d" % (fkey(f), ri + 1)
+            where = "%s:%d" % (prog.rel(f.file), r.line)
+            what = "return at line %d of %s" % (r.line, f.short)
+            extra = {"props": ["C04"]}
+            eff_ids = {e.id for e in effects}
+            if any(x.id in eff_ids for x in r.walk()) or any(i < rl[1] for i in eff_pos.get(rl[0], [])):
+                res.add(key, DISCHARGED, where, what, "the copy is part of / precedes the return in its block", func=f.name, extra=extra)
+                continue
+            removed = set(eff_pos) - {rl[0]}
+            if rl[0] not in f.reachable(f.entry, removed_blocks=removed):
+                res.add(key, DISCHARGED, where, what, "every path to it passes a copy into the slice", func=f.name, extra=extra)
+                continue
+            empty = same_vec = same_start = same_step = False
+            seen = []
+            # what holds on the paths that reach the return *without* a copy (edges out of the copying blocks taken away)
+            cut = [(b_, si) for b_ in removed for si in range(len(f.blocks[b_].succs))]
+            for fact in f.facts_at_block(rl[0], assume=cut):
+                if fact.belief:
+                    continue
+                for (c, pol) in atoms_of(fact.cond, fact.pol):
+                    seen.append(("" if pol else "!") + c.text()[:40])
+                    if _says_empty(c, pol):
+                        empty = True
+                    if src and _alias_verdict(ctx, c, pol, src[0]) == "same":
+                        same_vec = True
+                    if _same_member(c, pol, ("_i1",)):
+                        same_start = True
+                    if _same_member(c, pol, ("_m", "stride")):
+                        same_step = True
+            if empty:
+                res.add(key, DISCHARGED, where, what, "reached only for an empty slice", func=f.name, extra=extra)
+            elif same_vec and same_start and same_step:
+                res.add(key, DISCHARGED, where, what, "reached only when source and destination are the same elements", func=f.name, extra=extra)
+            else:
+                missing = [t for (t, v) in (("same storage", same_vec), ("same start", same_start), ("same step", same_step)) if not v]
+                res.add(key, VIOLATED, where, what,
+                        "this return is reached without anything having been copied into the slice, under %s: that is neither 'the slice "
+                        "is empty' nor 'source and destination are the same elements' (%s not established) - the assignment is silently "
+                        "skipped for some right-hand sides" % (" && ".join(seen[:4]) or "no condition", ", ".join(missing)), func=f.name, extra=extra)
+    res.stats["returns"] = n
+    return res
+
+
+def _element_writes(g, gctx):
+    """assignments that store into the slice: `*this = ...` (delegation), element designators built from the object"""
+    out = []
+    for x in g.walk():
+        if x.k == "CXXOperatorCallExpr" and x.op == "=" and len(x.c) == 3:
+            l = x.c[1].strip_all()
+            if (l.k == "UnaryOperator" and l.op == "*" and l.c and l.c[0].strip_all().k == "CXXThisExpr") or any(r[0] == "this" for r in gctx.flow.root(l)) \
+                    or (l.k not in ("DeclRefExpr", "MemberExpr") and _mentions_this(l, 0)):
+                out.append(x)
+        elif x.k in ("BinaryOperator", "CompoundAssignOperator") and x.op and x.op.endswith("=") and x.op not in ("==", "!=", "<=", ">=") and x.c:
+            l = x.c[0].strip_all()
+            if l.k != "DeclRefExpr" and l.k != "MemberExpr" and (any(r[0] == "this" for r in gctx.flow.root(l)) or _mentions_this(l, 0)):
+                out.append(x)
+    return out
+
+
+def _mentions_this(e, depth):
+    """an element designator built from the object itself: begin()[k], *(_base.data() + i), *it with it = this->begin()"""
+    from .ir import _single_def
+    for y in e.walk():
+        if y.k == "CXXThisExpr":
+            return True
+        if y.k == "DeclRefExpr" and y.decl and y.decl.get("k") == "local" and depth < 2:
+            defs = [v for v in y.fn.walk() if v.k == "VarDecl" and v.decl and v.decl.get("id") == y.decl["id"] and v.c]
+            if any(_mentions_this(d.c[0], depth + 1) for d in defs):
+                return True
+    return False
+
+
+def _says_empty(c, pol):
+    """(count == 0) holds / !(count != 0) / (count < 1) / empty()"""
+    cmp_ = as_comparison(c)
+    c0 = c.strip_all()
+    if cmp_ is None:
+        if c0.k == "CXXMemberCallExpr" and _short((c0.callee or {}).get("qn")) == "empty":
+            return bool(pol)
+        return False
+    l, op, r = cmp_
+    if not pol:
+        op = {"==": "!=", "!=": "==", "<": ">=", "<=": ">", ">": "<=", ">=": "<"}[op]
+
+    def lit(e):
+        e = e.strip_all()
+        return int(e.get("v")) if e.k == "IntegerLiteral" else None
+
+    def sizeish(e):
+        e = e.strip_all()
+        if e.k == "DeclRefExpr" and e.decl and e.decl.get("k") == "local":
+            from .ir import _single_def
+            d = _single_def(e)
+            return d is not None and sizeish(d)
+        if e.k == "CXXMemberCallExpr" and _short((e.callee or {}).get("qn")) in ("size", "count"):
+            return True
+        return e.k == "MemberExpr" and e.decl and e.decl.get("n") in ("_nc",)
+    for (a, b, o) in ((l, r, op), (r, l, {"<": ">", "<=": ">=", ">": "<", ">=": "<=", "==": "==", "!=": "!="}[op])):
+        v = lit(b)
+        if v is not None and sizeish(a):
+            if (o == "==" and v == 0) or (o == "<" and v == 1) or (o == "<=" and v == 0):
+                return True
+    return False
+
+
+def _same_member(c, pol, names):
+    """this->NAME == rhs.NAME (a member or an accessor of that name on both sides) holds"""
+    cmp_ = as_comparison(c)
+    if cmp_ is None:
+        return False
+    l, op, r = cmp_
+    if not pol:
+        op = {"==": "!=", "!=": "=="}.get(op, op)
+    if op != "==":
+        return False
+
+    def nm(e):
+        e = e.strip_all()
+        if e.k == "MemberExpr" and e.decl:
+            return e.decl.get("n"), (not e.c or e.c[0].strip_all().k == "CXXThisExpr")
+        if e.k == "CXXMemberCallExpr" and e.callee:
+            o = e.call_object()
+            return _short(e.callee.get("qn")), (o is None or o.strip_all().k == "CXXThisExpr")
+        return None, None
+    (a, athis), (b, bthis) = nm(l), nm(r)
+    return a in names and b in names and athis != bthis
+
+
 def _alias_verdict_via_callers(prog, f, cond, pol):
     """cond is a bool parameter (bool may_overlap): what do all callers pass for it?"""
     c = cond.strip_all()
